@@ -722,3 +722,16 @@ Definition model_case (c : case) : case :=
   | CaseHsPrint h _ _ => let '(m, r2) := hs_print_chain h in CaseHsPrint h (Ok m) r2
   | CaseHsParse isb body _ _ _ => let '(r1, r2, r3) := hs_parse_chain isb body in CaseHsParse isb body r1 r2 r3
   end.
+
+(* the inputs of a case are byte strings (what a Go []byte / string can hold) *)
+Definition body_bytes (b : option hmsg) : bool :=
+  match b with
+  | Some m => forallb is_byte (m_bits m) && forallb (fun kv => forallb is_byte (snd kv)) (m_rb m)
+  | None => true
+  end.
+Definition case_bytes (c : case) : bool :=
+  match c with
+  | CaseParse _ inp _ _ _ => forallb is_byte inp
+  | CaseHsParse _ body _ _ _ => body_bytes body
+  | _ => true
+  end.
